@@ -2151,13 +2151,20 @@ def impl_sappend(t):
     return guarded(go)
 
 
-PARENT_KINDS = 10
+PARENT_KINDS = 17
 
 
 def parent_kind(k):
-    """the pool of parent kinds (descriptors in Spec.Validate.parentKinds): plain strings only, fresh objects"""
+    """the pool of parent kinds (descriptors in Spec.Validate.parentKinds): plain strings only, fresh objects.
+    Kinds 10-16 sit on a grand-parent: `Parent(id="g", location=<where the parent sits on g>, parent=<great-grand-parent>)`"""
     def seq(d):
         return Sequence(d, Alphabet.NT_STRICT, id="p")
+
+    def g(st, a, b, gg=None):
+        return Parent(id="g", sequence_type="chromosome", location=SingleInterval(a, b, SYM[st]), parent=gg)
+
+    def gg(a, b):
+        return Parent(id="gg", location=SingleInterval(a, b, Strand.PLUS))
     return [lambda: None,
             lambda: Parent(id="p"),
             lambda: Parent(id="p", sequence_type="chromosome"),
@@ -2167,15 +2174,29 @@ def parent_kind(k):
             lambda: Parent(id="p", parent=Parent(id="gA")),
             lambda: Parent(id="p", parent=Parent(id="gB")),
             lambda: Parent(sequence_type="X"),
-            lambda: Parent(sequence_type="Y")][k]()
+            lambda: Parent(sequence_type="Y"),
+            lambda: Parent(id="p", parent=g("+", 0, 10)),
+            lambda: Parent(id="p", parent=g("+", 20, 30)),
+            lambda: Parent(id="p", parent=g("-", 0, 10)),
+            lambda: Parent(id="p", sequence=seq("ACGTACGTAC"), parent=g("+", 0, 10)),
+            lambda: Parent(id="p", sequence=seq("ACGTACGTAC"), parent=g("+", 20, 30)),
+            lambda: Parent(id="p", parent=g("+", 0, 10, gg(0, 50))),
+            lambda: Parent(id="p", parent=g("+", 0, 10, gg(100, 150))),
+            ][k]()
 
 
 def _kind_of(p):
     """descriptor tuple of a Parent read attribute by attribute (no Parent.__eq__ / __hash__)"""
     if p is None:
         return None
+    def loc_of(q):
+        return None if q.location is None else (q.location.start, q.location.end, RSYM[q.location.strand])
+    anc, q = [], p.parent
+    while q is not None:
+        anc.append((q.id, loc_of(q)))
+        q = q.parent
     return (p.id, None if p.sequence_type is None else str(getattr(p.sequence_type, "value", p.sequence_type)),
-            None if p.sequence is None else str(p.sequence), None if p.parent is None else p.parent.id)
+            None if p.sequence is None else str(p.sequence), tuple(anc))
 
 
 PCONS_OPS = {
